@@ -169,6 +169,7 @@ pub fn gen_history(rng: &mut Rng, cfg: &GenCfg) -> Vec<Op> {
             },
         }
         .min(cap);
+        let len = if matches!(type_id, 1 | 2 | 3 | 5 | 6) && same_len.is_none() && rng.chance(1, 2) { (4 + (type_id == 6) as usize).min(cap) } else { len };
         let mut data = vec![0u8; len];
         if len <= 4096 {
             rng.fill(&mut data);
@@ -180,6 +181,13 @@ pub fn gen_history(rng: &mut Rng, cfg: &GenCfg) -> Vec<Op> {
             }
         }
         rng.flv_prefix(type_id, &mut data);
+        // protocol-control type ids carried as ordinary payloads: bodies that spell what such a
+        // message would say - chunk stream ids in use (the serializer uses 2..6), sizes 0 / 1 /
+        // top bit set, windows - must come back as the bytes they are
+        if matches!(type_id, 1 | 2 | 3 | 5 | 6) && data.len() >= 4 && rng.chance(1, 2) {
+            let v = *rng.pick(&[0u32, 1, 2, 3, 4, 5, 6, 7, 64, 320, 128, 0x8000_0000, 0x8000_0001, 0xFFFF_FFFF]);
+            data[..4].copy_from_slice(&v.to_be_bytes());
+        }
         let m = Msg { type_id, msid, ts, data };
         last = Some(m.clone());
         ops.push(Op::Msg {
